@@ -337,6 +337,10 @@ fn parse_suffix(ctx: &mut ParsingContext<'_>) -> ParseResult<WithToken<Designato
 /// LRM 8.7 External names
 /// Inside of << >>
 fn parse_inner_external_name(ctx: &mut ParsingContext<'_>) -> ParseResult<ExternalName> {
+    ctx.nested(_parse_inner_external_name)
+}
+
+fn _parse_inner_external_name(ctx: &mut ParsingContext<'_>) -> ParseResult<ExternalName> {
     let token = ctx.stream.peek_expect()?;
     let class = try_init_token_kind!(
         token,
